@@ -17,6 +17,9 @@ class StmtMixin:
         if isinstance(val, EmptyV):
             val = self.typed_empty(tgt, val.kind, st)
         if isinstance(tgt, ast.Name):
+            ls = self.cur_contract.get("locals", {}).get(tgt.id)
+            if ls is not None and isinstance(val, T) and val.sort != ls and (val.sort == NONE or (isinstance(ls, tuple) and ls[0] == "Opt" and val.sort == ls[1])):
+                val = self.coerce(val, ls, "local " + tgt.id)
             st.env[tgt.id] = val
             if isinstance(val, T) and val.cls:
                 st.cls[tgt.id] = val.cls
@@ -465,6 +468,10 @@ class StmtMixin:
             v = self.m.hooks["iter"](self, v, st) or v
         if isinstance(v, tuple) and v and v[0] == "mapview":
             return MapDomain(self, v[2], v[1])
+        if isinstance(v, tuple) and v and v[0] == "enum":
+            return SeqDomain(self, v[1], mode="enum")
+        if isinstance(v, tuple) and v and v[0] == "zip":
+            return SeqDomain(self, v[1], mode="zip", other=v[2])
         if isinstance(v, T) and isinstance(v.sort, tuple):
             if v.sort[0] == "Map":
                 return MapDomain(self, v, "keys")
@@ -543,20 +550,29 @@ class MapDomain(SetDomain):
 
 
 class SeqDomain(Domain):
-    def __init__(self, eng, xs):
+    def __init__(self, eng, xs, mode="plain", other=None):
         super().__init__(eng)
-        self.xs = xs
+        self.xs, self.mode, self.other = xs, mode, other
+
+    def length(self):
+        if self.mode == "zip":
+            return f"(ite (<= (seq.len {self.xs.s}) (seq.len {self.other.s})) (seq.len {self.xs.s}) (seq.len {self.other.s}))"
+        return f"(seq.len {self.xs.s})"
 
     def initial(self, st):
         return T(INT, "0")
 
     def arbitrary(self, st):
         i = self.e.ctx.fresh(INT, "i")
-        st.pc.append(f"(and (>= {i.s} 0) (< {i.s} (seq.len {self.xs.s})))")
+        st.pc.append(f"(and (>= {i.s} 0) (< {i.s} {self.length()}))")
         return i
 
     def pick(self, st, i):
         el = T(self.xs.sort[1], f"(seq.nth {self.xs.s} {i.s})")
+        if self.mode == "enum":
+            return TupV([i, el])
+        if self.mode == "zip":
+            return TupV([el, T(self.other.sort[1], f"(seq.nth {self.other.s} {i.s})")])
         if isinstance(el.sort, tuple) and el.sort[0] == "Tup":
             return TupV([tup_get(el, j) for j in range(len(el.sort) - 1)])
         return el
@@ -565,7 +581,7 @@ class SeqDomain(Domain):
         return T(INT, f"(+ {i.s} 1)")
 
     def final(self, st):
-        return T(INT, f"(seq.len {self.xs.s})")
+        return T(INT, self.length())
 
 
 class OpaqueDomain(Domain):
